@@ -20,6 +20,8 @@ From WG Require Import Algo.EssSpec.
 From WG Require Import Algo.Ess.
 From WG Require Import Sort.Pipeline.
 From WG Require Import Transform.Pipelines.
+From WG Require Import PMF.Sched.
+From WG Require Import PMF.Ord.
 
 Extraction Language OCaml.
 
@@ -215,4 +217,10 @@ Extraction "model.ml"
   wf_lgraph
   below
   graph_arcs
+  pmf_run
+  pmf_ord_run
+  pmf_tasks
+  combine_results
+  seq_fold
+  ord_value
 .
